@@ -11,7 +11,10 @@ def sh(cmd, **kw):
 if not os.path.exists(WT):
     print(sh("git -C /repo worktree add --detach %s HEAD" % WT).stdout)
 for sid in sys.argv[1:]:
-    d = os.path.join(ROOT, "seeded", sid)
+    d0 = os.path.join(ROOT, "seeded", sid)
+    # the demos build into a shared target dir that seed-writing agents also use: run a private copy
+    d = "/tmp/xvc-verif-confirm-demo"
+    sh("rm -rf %s && cp -a %s %s && grep -rl /tmp/seed-target %s | xargs -r sed -i 's#/tmp/seed-target#/tmp/seed-target-confirm#g'" % (d, d0, d, d))
     head = sh("git -C /repo rev-parse HEAD").stdout.strip()
     sh("git -C %s checkout -- . ; git -C %s clean -fdq -e target; git -C %s checkout -q --detach %s" % (WT, WT, WT, head))
     sh("cp /repo/Cargo.lock %s/Cargo.lock" % WT)
@@ -22,6 +25,6 @@ for sid in sys.argv[1:]:
     b = sh("BASELINE_TARGET=/tmp/seed-target-nextest %s/tools/baseline.sh %s" % (ROOT, WT)); res["baseline_with_patch"] = b.stdout.strip().split("\n")[-1] if b.returncode == 0 else "FAIL: " + b.stdout[-500:]
     res["ok"] = res["demo_without_patch_exit"] == 0 and res["patch_applies"] and res["demo_with_patch_exit"] != 0 and b.returncode == 0
     sh("git -C %s checkout -- . ; git -C %s clean -fdq -e target" % (WT, WT))
-    m = json.load(open(os.path.join(d, "meta.json"))); m["confirmed"] = res
-    json.dump(m, open(os.path.join(d, "meta.json"), "w"), indent=1)
+    m = json.load(open(os.path.join(d0, "meta.json"))); m["confirmed"] = res
+    json.dump(m, open(os.path.join(d0, "meta.json"), "w"), indent=1)
     print(sid, "OK" if res["ok"] else "NOT CONFIRMED", {k: v for k, v in res.items() if k != "demo_with_patch_tail"}, flush=True)
